@@ -792,6 +792,54 @@ func (g *SelGen) GenSeq(depth int) *Val {
 	return seq
 }
 
+// edgesOf counts the edges bound to the recursion whose sequence v is (not those of nested recursions).
+func edgesOf(v *Val) int {
+	if v.Kind == KMap && len(v.M) == 1 {
+		switch v.M[0].K {
+		case "@":
+			return 1
+		case "R":
+			return 0
+		}
+	}
+	n := 0
+	for _, x := range v.L {
+		n += edgesOf(x)
+	}
+	for _, e := range v.M {
+		n += edgesOf(e.V)
+	}
+	return n
+}
+
+// SelTooWild: some recursion's sequence holds more than two edges, or recursions nest deeper than two.
+// Each edge multiplies the size of the rewritten selector at every level of the walk (the real code
+// has the same growth), so such selectors are left to the C10 harness.
+func SelTooWild(v *Val, nest int) bool {
+	if v.Kind == KMap && len(v.M) == 1 && v.M[0].K == "R" {
+		nest++
+		if nest > 2 {
+			return true
+		}
+		for _, e := range v.M[0].V.M {
+			if e.K == ":>" && edgesOf(e.V) > 2 {
+				return true
+			}
+		}
+	}
+	for _, x := range v.L {
+		if SelTooWild(x, nest) {
+			return true
+		}
+	}
+	for _, e := range v.M {
+		if SelTooWild(e.V, nest) {
+			return true
+		}
+	}
+	return false
+}
+
 func isEdge(v *Val) bool { return v.Kind == KMap && len(v.M) == 1 && v.M[0].K == "@" }
 
 // TravStore is a small helper for hand-built graphs.
@@ -815,6 +863,9 @@ func (s *TravStore) Put(v *Val) (string, *Val) {
 // TravInteresting steers the generators by rejection: pairs whose unrestricted walk is short (fewer
 // than 5 events) or crosses no link are kept only occasionally, so that most cases exercise the walk.
 func TravInteresting(r *Rng, tc *TravCase) bool {
+	if SelTooWild(tc.Sel, 0) {
+		return false
+	}
 	env, err := tc.Open()
 	if err != nil {
 		return false
